@@ -262,6 +262,17 @@ def witnesses(ctx, binp):
     for k in known:
         w = k["witness"]
         ws.append({"ID": k["id"], "Lang": w.get("lang", "bash"), "Src": w.get("src", ""), "Opts": w.get("opts"), "Params": w.get("params")})
+    # the pinned regression corpus: ordinary small inputs exercising mechanisms that once failed or that a seeded
+    # change broke; visited on every seed and tier, same oracle (no panic) as the generated programs
+    pinned = []
+    try:
+        for line in open(os.path.join(ROOT, "corpus", "c28", "regress.jsonl")):
+            line = line.strip()
+            if line.startswith("{"):
+                pinned.append(json.loads(line))
+    except OSError:
+        ctx.broken.append(("pinned-corpus", "corpus/c28/regress.jsonl is missing"))
+    ws += pinned
     path = os.path.join(ROOT, "build", "c28_witness_%d.jsonl" % ctx.seed)
     with open(path, "w") as f:
         for w in ws:
@@ -278,6 +289,15 @@ def witnesses(ctx, binp):
             ctx.broken.append(("witness", "witness %s did not run (parse_err=%s hang=%s)" % (w["ID"], r.get("parse_err"), r.get("hang"))))
         elif r["panic"]:
             ctx.fail("fixed_defect_recurs", {"program": w["Src"]}, None, {"msg": r["msg"], "where": r["where"]})
+    for w in pinned:
+        r = byid.get(w["ID"])
+        ctx.count(1, ["pinned:" + w["ID"]])
+        if not r or r.get("parse_err") or r.get("hang"):
+            ctx.broken.append(("pinned-corpus", "pinned input %s did not run: %s" % (w["ID"], json.dumps(r)[:200])))
+        elif r["panic"]:
+            ctx.fail("pinned_input_panics", {"id": w["ID"], "program": w.get("Src", ""), "opts": w.get("Opts"), "params": w.get("Params")},
+                     None, {"msg": r["msg"], "where": r["where"]})
+    ctx.extra["pinned_inputs"] = len(pinned)
     for k in known:
         r = byid.get(k["id"])
         ctx.count(1)
@@ -300,9 +320,9 @@ def run(ctx):
                 "string literals of interp/*_test.go that parse, as is and under a fixed enumeration of mutations (number tokens -> odd numbers, word "
                 "dropped/duplicated/emptied, 12 wrapping contexts); a fixed enumeration of parameter expansions: 19 subjects (scalars, unset, $@ $* arrays, sparse and associative arrays, positional and special parameters) x every operator (# ## % %% ^ ^^ , ,, : :- - := = :+ + :? ? / // /# /% with one or two arguments) x 27 argument forms that are present in the source but expand to nothing ($unset, \"\", $(true), ...) or to something, unquoted / quoted / in for and [[ ]]; interp.New with random option lists and interp.Params with odd arguments. "
                 "non-trivial = distinct program texts that parse and were run to completion")
+    witnesses(ctx, binp)     # repaired inputs + pinned regression corpus run first
     code_leg(ctx, binp, 500 if ctx.tier == "quick" else 6000)
     code_leg2(ctx, binp, 400 if ctx.tier == "quick" else 5000)
-    witnesses(ctx, binp)
     search(ctx, binp)
     ctx.assumptions += [
         "the model's library functions (strconv.Atoi, interp.atoi, Itoa, []rune, IndexRune, ValidName, changeDir) are Section variables: "
